@@ -152,7 +152,18 @@ def oracle(c, meta, kind, im):
 
 
 WELL = ['a \\verb|$| b', 'x \\verb|a_b|', 'end with verb \\verb|q|', '\\verb!{!',
-        'A \\LTinput{empty.tex} B $x$ C', 'A\\footnote{b} \\LTinput{defs.tex} C']
+        'A \\LTinput{empty.tex} B $x$ C', 'A\\footnote{b} \\LTinput{defs.tex} C',
+        # an inner environment of a formula directly in front of its end
+        '$\\begin{array}{l}a\\\\b\\end{array}$ text', '\\[\\begin{array}{l}a\\end{array}\\] text',
+        '\\begin{equation}\\begin{aligned}a&=b\\end{aligned}\\end{equation} text',
+        '\\(\\begin{cases}a\\\\b\\end{cases}\\) text', '$$\\begin{matrix}a&b\\end{matrix}$$ text',
+        '\\begin{align}\\begin{split}a&=b\\end{split}\\end{align} text',
+        '$\\begin{array}{l}\\begin{array}{l}a\\end{array}\\end{array}$ text',
+        # an optional argument ends at the first ], an opening bracket inside
+        # it is an ordinary character
+        '\\section[The interval $[0,1)$]{Title} text', '\\begin{itemize}\\item[$[0,1)$] text\\end{itemize}',
+        '\\cite[p.~5, eq.~[3a]{key} text', '\\begin{proof}[Proof of [a] x\\end{proof}',
+        '\\chapter[x [y]{Z} text', '\\footnotemark[[] text', '\\caption[a [b]{c} text']
 
 
 def accent_cases(rng, tier):
